@@ -35,7 +35,7 @@ def install(names, fallthrough_log, state=None):
         mapping.append((numpy.ndarray, np_model.NDArray))
         if state is not None:
             state.path_hooks.append(np_model.RANDOM.reset)
-    for extra in ("sp", "mp", "pd", "misc"):  # noqa
+    for extra in ("sp", "mp", "pd", "misc", "plot"):  # noqa
         if extra in names:
             mod = __import__(f"models.{extra}_model", fromlist=["x"])
             mapping += mod.mapping(names, fallthrough_log, state)
